@@ -495,12 +495,10 @@ def hdf5_faithful(t):
             if set(e.keys()) != ks:
                 return False
         for k in ks:
-            if "/" in k or k == "":
-                return False
+            if "/" in k or k == "" or k in ("taxonomy", "Taxonomy", "KEGG_Pathways", "collapsed_ids"):
+                return False           # names with a dedicated list formatter / path characters
             types = {type(e[k]) for e in md}
             if types <= {str}:
-                if k in ("taxonomy", "Taxonomy", "KEGG_Pathways", "collapsed_ids"):
-                    return False
                 continue
             if types <= {int} and all(abs(e[k]) < 2 ** 62 for e in md):
                 continue
